@@ -277,6 +277,15 @@ Definition all_locked : bool :=
   forallb (fun m => match assoc (sl m) g_prom_locks with Some b => b | None => false end)
           ["ServeNostrStart"; "ServeNostrEnd"; "ServeNostrClientMsg"; "ServeNostrServerMsg"]%string.
 
+(** the key under which reqCounter files a session's subscriptions is drawn
+    afresh for every session and from nothing the client controls: the only
+    statements of ServeNostrStart beside the dispatches are these two.  (The
+    model identifies a session with its key: [wf] lets a key be live at most
+    once at a time.) *)
+Definition session_key_fresh : bool :=
+  list_eqb str_eqb g_prom_session_key
+           [sl "reqID := uuid.NewString()"; sl "ctx = setRequestID(ctx, reqID)"].
+
 (* ------------------------------------------------------------------ *)
 (** * Specification over histories (no structure of the code) *)
 
